@@ -459,8 +459,18 @@ def c01_6(ctx, r):
                         work.append((ud[1], ud[0]))
         return False
 
-    is_suffix = lambda x: isinstance(x, ast.Name) and x.id == "suffix"
+    # role: the suffix local = the single assignment whose value reads self._batch_index
+    SUF = sfx[0].ast.targets[0].id if ok_inc and len(sfx) == 1 and isinstance(sfx[0].ast.targets[0], ast.Name) else None
+    if SUF is None:
+        raise AnalysisError("C01.6", "the batch suffix local (the one statement reading self._batch_index) was not recognised")
+    is_suffix = lambda x: isinstance(x, ast.Name) and x.id == SUF
     nfile = 0
+    ahs_cls = ctx.cls("AsyncHpcSubmitter", "C01.6")
+    ainit = ahs_cls.methods["__init__"]
+    NAMEV = None
+    for s9 in [x for x in ctx.cg.sites_in(mk) if x.constructs == ahs_cls.qual]:
+        a9 = ctx.arg_for(s9, ainit, "name")
+        NAMEV = a9.id if isinstance(a9, ast.Name) else None
     for n in cfg.nodes:
         for c in cfg.calls_at(n):
             fname = ctx.src(c.func).split(".")[-1]
@@ -470,7 +480,7 @@ def c01_6(ctx, r):
             nfile += 1
             r.check(_mentions(mk, tgt, n, is_suffix), f"{fname}: the file name carries this batch's suffix", key_of(mk, f"{fname} target without the batch suffix"), mk.loc(c),
                     f"`{ctx.src(tgt)}` does not depend on the batch suffix: two batches write the same file", "never reuses a batch identifier")
-        if n.kind == "stmt" and isinstance(n.ast, ast.Assign) and ctx.src(n.ast.targets[0]) == "name":
+        if n.kind == "stmt" and isinstance(n.ast, ast.Assign) and NAMEV and ctx.src(n.ast.targets[0]) == NAMEV:
             nfile += 1
             r.check(_mentions(mk, n.ast.value, n, is_suffix), "the HPC job name carries this batch's suffix", key_of(mk, "job name without the batch suffix"), mk.loc(n.ast),
                     f"`{ctx.src(n.ast)}`: two batches get the same job name, hence the same <name>.sh submission script", "never reuses a batch identifier")
